@@ -37,7 +37,7 @@ var deviceKnownNames = map[string]bool{"AnalogNoteOff": true, "AnalogNoteOn": tr
 	"ProcessEvents": true, "SemitoneDown": true, "SemitoneReset": true, "SemitoneUp": true, "State": true, "Status": true, "checkDoubleActions": true,
 	"checkExitSequence": true, "findController": true, "handleABSEvent": true, "handleInputEvents": true, "handleKEYEvent": true, "handleOpenrgb": true,
 	"init": true, "invokeActionPress": true, "invokeActionRelease": true, "key": true, "logFields": true, "processEvent": true, "readN": true,
-	"resolveHidraw": true, "shiftColor": true, "valueToColor": true, "setActionLed": true}
+	"resolveHidraw": true, "shiftColor": true, "valueToColor": true}
 
 // newHelpers: named functions of package device that the reference tree does not have.
 func (d *dev) newHelpers() map[*ssa.Function]bool {
@@ -840,7 +840,6 @@ func sameField(a, b *types.Var) bool {
 	}
 	return a.Name() == b.Name() && a.Pos() == b.Pos() && a.Pos().IsValid()
 }
-
 
 // pureHelpers: repository functions that only compute a value from their arguments: loop-free, no stores, sends, map
 // updates, go/defer, and calls only to math.* or builtins.  Path rules inline them so that extracting an expression into
